@@ -62,6 +62,7 @@ macro_rules! payload {
         }
     )* } }
 }
+macro_rules! opaque_nn { ($($n:ident),*) => { verus!{ $( #[verifier::external_body] pub struct $n { _p: u8 } )* } } }
 payload!(DescribedS = 0, Dec32 = 1, Dec64 = 2, Dec128 = 3, Timestamp = 4, Uuid = 5, Symbol = 6, ListS = 7, MapS = 8, ArrayS = 9);
 
 //@@ type file=serde_amqp/src/value/mod.rs kind=enum name=Value
@@ -99,6 +100,32 @@ impl Value {
     ensures r is Ok ==> r->Ok_0 == call_of(*self),             // [C03.value.serialize-dispatch] every variant of the untyped value tree is written through the serializer call of ITS AMQP type with ITS payload (ubyte through serialize_u8, ushort through serialize_u16, ..., long through serialize_i64; composites through their payload's own Serialize impl) [C20.value.same-call-as-typed] -- the same call a typed Rust value of that type makes, so going through the value tree or straight to bytes writes the same encoding
 //@@ end
 }
+
+// ---- value::ser::SeqSerializer::end: which tree node a finished sequence becomes, and what happens to the array marker ----
+//@@ type file=serde_amqp/src/util.rs kind=enum name=SequenceType
+//@@ end
+opaque_nn!(NonNativeType);
+/// value::ser::Serializer: the two one-shot markers
+pub struct VSer { pub non_native_type: Option<NonNativeType>, pub seq_type: Option<SequenceType> }
+pub uninterp spec fn list_of(v: Seq<Value>) -> ListS;
+pub uninterp spec fn array_of(v: Seq<Value>) -> ArrayS;
+#[verifier::external_body]
+pub fn list_from_vec(v: Vec<Value>) -> (r: ListS) ensures r == list_of(v@) { unimplemented!() }
+#[verifier::external_body]
+pub fn array_from_vec(v: Vec<Value>) -> (r: ArrayS) ensures r == array_of(v@) { unimplemented!() }
+//@@ fn file=serde_amqp/src/value/ser.rs impl=`impl ser::SerializeSeq for SeqSerializer<'_>` name=end as=seq_serializer_end
+//@@ ret Result<Value, Error>
+//@@ subst `(self)` => `(se: &mut VSer, vec: Vec<Value>)` rule=R2
+//@@ subst `self.se.seq_type` => `se.seq_type` rule=R2
+//@@ subst `Value::List(self.vec)` => `Value::List(list_from_vec(vec))` rule=R11
+//@@ subst `Value::Array(Array::from(self.vec))` => `Value::Array(array_from_vec(vec))` rule=R11
+//@@ spec
+    ensures
+        final(se).seq_type is None,                                                                         // [C20.value-ser.sequence-marker-is-one-shot] [C03.value-ser.sequence-marker-is-one-shot] the array marker applies to the sequence that ends here and to no later one: a map entry's key and value go through ONE serializer, and a marker left behind by an array key would turn the entry's list value into an array -- the value tree would then differ from what the bytes decode to
+        final(se).non_native_type == old(se).non_native_type,
+        old(se).seq_type is None || old(se).seq_type == Some(SequenceType::List) ==> r == Ok::<Value, Error>(Value::List(list_of(vec@))),      // [C20.value-ser.plain-sequence-is-a-list] [C05.value-ser.plain-sequence-is-a-list]
+        old(se).seq_type == Some(SequenceType::Array) ==> r == Ok::<Value, Error>(Value::Array(array_of(vec@))),                                // [C20.value-ser.marked-sequence-is-an-array] [C05.value-ser.marked-sequence-is-an-array]
+//@@ end
 
 // ---- the other direction: a typed value serialized into the value tree (value::ser::Serializer) ----
 pub struct VSerializer { pub g: Ghost<int> }
